@@ -216,6 +216,13 @@ func main() {
 		}
 		f.Close()
 		trace.N = paths
+	case "parked":
+		// writers queued behind a session transaction (C03 / C08: they start from what it published; nothing it logged is lost)
+		pw := mk()
+		pw.Hist = 8890
+		dbt.ParkedWriterScenario(pw)
+		flush(pw)
+		pw.Close()
 	case "txnfail":
 		// failing calls as later writes of a session transaction (C02: they leave the transaction's working state as it was)
 		tf := mk()
